@@ -1,0 +1,28 @@
+//go:build verif
+
+package substitution
+
+// Contracts for the verification harness under /verif (comment-only file).
+//
+// C13: the field filters of a substitution (used by the modify action) run on
+// the bytes of an event field.  Each Apply is checked panic-free (index and
+// slice bounds) for every field value, under what the filter parsers guarantee:
+// cut count > 0, regexp group numbers within 0..NumSubexp.  The cut / trim_to
+// results are sub-slices of the value: they never reach past its end.
+
+//@ func (*CutFilter).Apply
+//@   requires f.count >= 0
+//@   pure
+//@   ensures sameblock(result, src) && off(src) <= off(result) && off(result) + len(result) <= off(src) + len(src)
+
+//@ func (*TrimToFilter).Apply
+//@   pure
+//@   ensures sameblock(result, src) && off(src) <= off(result) && off(result) + len(result) <= off(src) + len(src)
+
+//@ func (*RegexFilter).Apply
+//@   requires r.re != nil
+//@   requires allrange(r.groups, 0, uf_nsub(r.re) + 1)
+//@   loop 1 invariant rangeindex < len(indexes)
+//@   loop 2 invariant rangeindex#2 < len(r.groups) && 0 <= rangeindex && rangeindex < len(indexes)
+//@   loop 2 invariant len(index) == 2 * (uf_nsub(r.re) + 1)
+//@   loop 2 invariant forall k :: 0 <= k && k <= uf_nsub(r.re) ==> (index[2*k] == -1 && index[2*k+1] == -1) || (0 <= index[2*k] && index[2*k] <= index[2*k+1] && index[2*k+1] <= len(src))
